@@ -42,6 +42,7 @@ MODEL = "Reject"
 SHARD = 250
 CASE_TIMEOUT = 90        # wall-clock backstop (a run that sleeps); the limit that counts is CPU_LIMIT, see run_impl
 CPU_LIMIT = 10           # seconds of CPU one document may use: the machine's load does not eat into it
+CPU_LIMIT_BY_KIND = {"empty": 5}   # (the unchanged code answers these in milliseconds)
 SKIPPED_FN = "case_unsupported"
 RULE = ("cases: edit = a valid seed recipe (16 built-in seeds covering every construct, 11 tiny seeds one "
         "per declaration kind, ~90 repository examples/tests that run offline) with ONE structural edit "
@@ -71,7 +72,20 @@ RULE = ("cases: edit = a valid seed recipe (16 built-in seeds covering every con
         "str.format, for fix the class fix_exception returns / raises.  Oracle on "
         "the implementation: never a non-DataGenError exception, never a hang, a DataGenError has a "
         "message, a line when what was raised at the fault was not a DataGenError, zero rows when the error is raised before "
-        "execution starts, the CPU budget.  non-trivial: the document "
+        "execution starts, the CPU budget.  round 4: ctx = every single edit (one value per shape, delete / rename each key) of the 12 tiny seeds "
+        "placed BEHIND valid statements of every kind (var of each value type, templates plain / full / for_each / nested / "
+        "friends with a var, macros used / unused / chained, option, plugin, include_file, random_reference, hidden, just_once; "
+        "all of them in two orders, or one kind), also in front of / between them, and behind the unchanged seed itself (same "
+        "names); sampled edits of the built-in seeds the same way; run together with the edited seed ALONE in the same process: "
+        "what is rejected before execution alone must be rejected before execution, with no row written, in company (the "
+        "surrounding statements write rows and use names no seed or replacement value uses); empty = 95 sources that have "
+        "nothing to give or run out (CSV with header only / 0 bytes / blank lines / BOM only, SQL table / view without rows, "
+        "database without tables, a plugin iterator over 0-2 records, each linear / shuffled, repeat on / off; random_choice of "
+        "nothing / zero weights, random_number over an empty / one-point range / step 0, date ranges backwards, if without a "
+        "true branch, counters with step 0, schedules with count 0 / interval 0 / until before start, UniqueId with an empty "
+        "alphabet / template, an empty file, references to tables with count 0 / used up uniquely) x 11 ways of using them "
+        "(field, hidden field + formula, var + formula, .next, for_each, friend, nested, argument, count, twice) behind a "
+        "template that writes rows, under 5 s of CPU: the run must end with rows or a DataGenError.  non-trivial: the document "
         "is rejected or crashes (the rejection machinery ran), or a fault / hostile / dag / big case, or a format template with a brace; distinct by case hash")
 TRUSTED = ["harness/c20.py: tree <-> YAML text (yaml.safe_dump / yaml.safe_load); the model receives the tree "
            "PyYAML loads from the text the implementation receives (`__line__` keys dropped: the loader "
@@ -85,7 +99,10 @@ TRUSTED = ["harness/c20.py: tree <-> YAML text (yaml.safe_dump / yaml.safe_load)
            "heap given to the model; the implementation's own loader adds a `__line__` entry per mapping (slack of the "
            "invocation count); check_no_recursive_aliases is counted through a wrapper installed under its module-level "
            "name (absent name: not counted)",
-           "harness/c20.py run_impl: CPU-time limit by signal.ITIMER_PROF, reported like the driver's wall-clock alarm"]
+           "harness/c20.py run_impl: CPU-time limit by signal.ITIMER_PROF, reported like the driver's wall-clock alarm",
+           "harness/c20.py ctx cases: the verdict of the edited seed on its own (same worker process, cached per seed and edit) "
+           "is the yardstick for `detectable from the recipe alone`; harness/c20_plugin.py Boom.items: an iterator plugin "
+           "written like the dataset iterators (start / next_result) over k records"]
 ASSUMPTIONS = ["PyYAML maps text to trees; what it raises for unloadable text is an input of the model "
                "(marked YAMLError / unmarked YAMLError / other exception)",
                "importlib / the file system answer as observed by the harness in the same process",
@@ -1348,6 +1365,332 @@ def big_cases(tier):
     return out
 
 
+# ----------------------------------------------------------------- round 4: the same fault, later in a document
+# A structural fault must be found whatever the parser has already seen: the edited seed is put behind (or in front
+# of) valid statements of every kind, so that whatever the parser keeps between statements (tables keyed by element
+# type, name, line ...) is warm when it meets the fault.  The names of the surrounding statements occur in no seed and
+# in no replacement value, so they cannot repair a fault (an unknown macro / reference stays unknown).
+_CTX = {
+    "var_str": [{"var": "ctx_v1", "value": "hello"}],
+    "var_int": [{"var": "ctx_v2", "value": 5}],
+    "var_call": [{"var": "ctx_v3", "value": {"random_number": {"min": 1, "max": 2}}}],
+    "var_list": [{"var": "ctx_v4", "value": [{"object": "CtxMade", "fields": {"a": 1}}]}],
+    "object_plain": [{"object": "CtxPlain", "fields": {"name": "n", "n": 1}}],
+    "object_full": [{"object": "CtxFull", "count": 2, "nickname": "ctx_full", "just_once": False, "update_key": "k",
+                     "fields": {"k": 1, "c": {"random_choice": ["a", "b"]}},
+                     "friends": [{"object": "CtxFriend", "nickname": "ctx_friend", "fields": {"p": {"reference": "CtxFull"}}}]}],
+    "object_for_each": [{"plugin": "harness.c20_plugin.Boom"},
+                        {"object": "CtxEach", "for_each": {"var": "ctx_r", "value": {"Boom.items": {"n": 2}}},
+                         "fields": {"c": "${{ctx_r.City}}"}}],
+    "object_nested": [{"object": "CtxOuter", "fields": {"child": [{"object": "CtxChild", "count": 1}],
+                                                        "one": {"object": "CtxOne", "fields": {"z": 1}}},
+                       "friends": [{"var": "ctx_fv", "value": 3}, {"object": "CtxKid", "count": "${{ctx_fv - 2}}"}]}],
+    "macro_used": [{"macro": "ctx_m", "fields": {"mf": 1}, "friends": [{"object": "CtxMF"}]},
+                   {"object": "CtxUsesMacro", "include": "ctx_m"}],
+    "macro_unused": [{"macro": "ctx_unused", "fields": {"mf": 1}}],
+    "macro_chain": [{"macro": "ctx_m1", "fields": {"a": 1}}, {"macro": "ctx_m2", "include": "ctx_m1", "fields": {"b": 2}},
+                    {"object": "CtxChain", "include": "ctx_m2, ctx_m1"}],
+    "option": [{"option": "ctx_opt", "default": 3}, {"object": "CtxOpt", "count": "${{ctx_opt - 2}}"}],
+    "plugin": [{"plugin": "snowfakery.standard_plugins.Math"}, {"object": "CtxMath", "fields": {"r": "${{Math.sqrt(4)}}"}}],
+    "include_file": [{"include_file": "examples/company.yml"}],
+    "random_reference": [{"object": "CtxTarget", "count": 2},
+                         {"object": "CtxRef", "fields": {"r": {"random_reference": "CtxTarget"},
+                                                         "u": {"random_reference": {"to": "CtxTarget", "unique": True}}}}],
+    "hidden": [{"object": "__CtxHidden", "nickname": "ctx_h", "fields": {"s": 1}},
+               {"object": "CtxShown", "fields": {"__t": 1, "v": "${{ctx_h.s}}"}}],
+    "just_once": [{"object": "CtxOnce", "just_once": True, "fields": {"n": 1}}],
+}
+
+
+def _ctx_all(order):
+    """every kind of statement in one document; order: which of two statements that look alike is seen first"""
+    names = ["var_str", "var_call", "var_list", "object_plain", "object_full", "object_for_each", "object_nested", "macro_used",
+             "option", "plugin", "random_reference", "macro_unused", "just_once"]
+    if order == "reversed":
+        names = names[::-1]
+    out, seen_plugins = [], set()
+    for n in names:
+        for st in _CTX[n]:
+            if "plugin" in st:
+                if st["plugin"] in seen_plugins:
+                    continue
+                seen_plugins.add(st["plugin"])
+            out.append(st)
+    return out
+
+
+CTX_PREFIXES = dict(_CTX)
+CTX_PREFIXES["all"] = _ctx_all("forward")
+CTX_PREFIXES["all_reversed"] = _ctx_all("reversed")
+CTX_POSITIONS = ["before", "after", "around"]
+
+# the small alphabet of the context cases: one value per shape, delete / rename each key
+_CTX_REPL = [i for i, v in enumerate(_py_alpha()) if any(v is w or (type(v) is type(w) and v == w) for w in (
+    None, True, 5, 1.5, "", "x", _dt.date(2020, 1, 1), [], ["x"], [{"object": "B"}], {}, {"k": "v"}, {"object": "B"},
+    {"var": "v", "value": 1}))]
+_CTX_KEYS = [i for i, k in enumerate(KEYALPHA) if k in (["s", "x"], ["s", "value"], ["s", "object"], ["i", 5])]
+
+
+def ctx_edit_descriptors(t):
+    """the single edits used in context: below the root (the root stays a list of statements)"""
+    out = []
+    for path, node in positions(t):
+        p = list(path)
+        if not p:
+            for i in range(len(node[1]) if node[0] == "l" else 0):
+                out.append([p, "dupi", i])
+            continue
+        for ri in _CTX_REPL:
+            if REPL[ri] != node:
+                out.append([p, "rep", ri])
+        if node[0] == "l":
+            for i in range(len(node[1])):
+                out.append([p, "del", i])
+        elif node[0] == "m":
+            keys = [kv[0] for kv in node[1]]
+            for i in range(len(node[1])):
+                out.append([p, "del", i])
+                for ki in _CTX_KEYS:
+                    if KEYALPHA[ki] not in keys:
+                        out.append([p, "ren", [i, ki]])
+            for i in range(len(node[1]) - 1):
+                out.append([p, "swap", [i, i + 1]])
+    return out
+
+
+def ctx_tree(case):
+    """-> (tree of the whole document, tree of the edited seed alone) or (None, None)"""
+    s = seeds().get(case["seed"])
+    if s is None or (case["prefix"] not in CTX_PREFIXES and case["prefix"] != "self"):
+        return None, None
+    t = s["tree"] if case.get("edit") is None else apply_edit(s["tree"], case["edit"])
+    if t[0] != "l" or s["tree"][0] != "l":
+        return None, None
+    if case["prefix"] == "self":
+        # the unchanged seed, then the edited one: the SAME names have been seen before (what is kept per name is warm);
+        # here the first copy may define what the fault of the second lacks, so only the model (which knows the whole
+        # document) says whether it must be rejected - the comparison with the document alone is not made
+        pre = copy.deepcopy(s["tree"][1])
+    else:
+        pre = [from_py(x) for x in CTX_PREFIXES[case["prefix"]]]
+    pos = case.get("pos", "before")
+    if pos == "before":
+        items = pre + t[1]
+    elif pos == "after":
+        items = t[1] + pre
+    else:
+        k = (len(pre) + 1) // 2
+        items = pre[:k] + t[1] + pre[k:]
+    # the first statement of every such document writes a row: a fault that is found only while the recipe runs is
+    # then found after a row was written (the observable the property names)
+    return ["l", [from_py({"object": "CtxFirst", "fields": {"a": 1}})] + items], t
+
+
+def ctx_cases(rng, tier):
+    sd = seeds()
+    out = []
+    minis = sorted(n for n in sd if n.startswith("m_"))
+    others = sorted(n for n in sd if n.startswith("b_"))
+    singles = sorted(_CTX)
+
+    def add(seed, edit, prefix, pos):
+        out.append({"kind": "ctx", "seed": seed, "edit": edit, "prefix": prefix, "pos": pos})
+    for n in minis + others:
+        for pre in sorted(CTX_PREFIXES):
+            add(n, None, pre, rng.choice(CTX_POSITIONS))               # valid in valid surroundings
+    for n in minis:
+        ds = ctx_edit_descriptors(sd[n]["tree"])
+        for i, d in enumerate(ds):
+            # every edit of the tiny seeds behind everything (quick: one of the two orders, thorough: both) ...
+            if tier != "quick" or i % 2 == 0:
+                add(n, d, "all", "before")
+            if tier != "quick" or i % 2 == 1:
+                add(n, d, "all_reversed", "before")
+            if tier == "quick" and i % 8 > 1:
+                out[-1]["model"] = False              # (the long documents: the model reads a quarter of them in quick)
+            # ... and next to one kind of statement
+            for _ in range(1 if tier == "quick" else 6):
+                add(n, d, rng.choice(singles), rng.choice(["before", "before", "after", "around"]))
+    selfs = [(n, d) for n in minis for d in ctx_edit_descriptors(sd[n]["tree"])]
+    for n, d in (rng.sample(selfs, 250) if tier == "quick" else selfs):
+        add(n, d, "self", rng.choice(["before", "before", "after"]))
+    budget = 300 if tier == "quick" else 20000
+    pool = [(n, d) for n in others for d in ctx_edit_descriptors(sd[n]["tree"])]
+    for n, d in rng.sample(pool, min(budget, len(pool))):
+        add(n, d, rng.choice(["all", "all_reversed"] + singles), rng.choice(["before", "before", "after", "around"]))
+    return out
+
+
+# ----------------------------------------------------------------- round 4: sources that are empty or used up
+# Every run must END: with rows, or with a DataGenError.  The sources below have nothing to give (a dataset without
+# rows, an empty choice, an empty range, a table without rows to refer to) or run out while rows are still wanted.
+EMPTY_CSV = {
+    "header_only": "Number,Street,City\n",
+    "header_no_newline": "Number,Street,City",
+    "zero_bytes": "",
+    "newline_only": "\n",
+    "blank_lines": "\n\n\n",
+    "header_blank_lines": "Number,Street,City\n\n\n",
+    "bom_only": "\ufeff",
+    "bom_header": "\ufeffNumber,Street,City\n",
+    "crlf_header": "Number,Street,City\r\n",
+    "spaces_only": "   \n",
+    "one_row": "Number,Street,City\n1,Main,Town\n",
+    "two_rows": "Number,Street,City\n1,Main,Town\n2,Side,Ville\n",
+}
+EMPTY_SQL = {
+    "sql_empty_table": ["CREATE TABLE t (Number, Street, City)"],
+    "sql_empty_view": ["CREATE TABLE u (Number, Street, City)", "INSERT INTO u VALUES (1, 'Main', 'Town')", "DROP TABLE IF EXISTS t",
+                       "CREATE VIEW t AS SELECT * FROM u WHERE Number > 5"],
+    "sql_one_row": ["CREATE TABLE t (Number, Street, City)", "INSERT INTO t VALUES (1, 'Main', 'Town')"],
+    "sql_no_tables": [],
+}
+DATASET_PLUGIN = "snowfakery.standard_plugins.datasets.Dataset"
+
+
+def _empty_sources():
+    """label -> (plugins, statements before, value, files, record?)  record: the value has a .City"""
+    out = {}
+    for name, text in EMPTY_CSV.items():
+        for mode in ("iterate", "shuffle"):
+            for rep in (None, True, False):
+                args = {"dataset": "data.csv"}
+                if rep is not None:
+                    args["repeat"] = rep
+                out[f"csv:{name}:{mode}:repeat={rep}"] = ([DATASET_PLUGIN], [], {"Dataset." + mode: args}, {"data.csv": text}, True)
+    for name, stmts in EMPTY_SQL.items():
+        for mode in ("iterate", "shuffle"):
+            for rep in (None, False):
+                args = {"dataset": "sqlite:///data.db", "table": "t"}
+                if name == "sql_no_tables":
+                    del args["table"]
+                if rep is not None:
+                    args["repeat"] = rep
+                out[f"{name}:{mode}:repeat={rep}"] = ([DATASET_PLUGIN], [], {"Dataset." + mode: args}, {"data.db": {"sqlite": stmts}}, True)
+    boom = "harness.c20_plugin.Boom"
+    for n in (0, 1, 2):
+        for rep in (True, False):
+            out[f"plugin_iterator:n={n}:repeat={rep}"] = ([boom], [], {"Boom.items": {"n": n, "repeat": rep}}, {}, True)
+    plain = {
+        "random_choice:empty_list": {"random_choice": []},
+        "random_choice:empty_map": {"random_choice": {}},
+        "random_choice:zero_weights": {"random_choice": {"a": "0%", "b": "0%"}},
+        "random_choice:zero_weight_choices": {"random_choice": [{"choice": {"probability": 0, "pick": "a"}}]},
+        "random_choice:null": {"random_choice": None},
+        "random_number:min_above_max": {"random_number": {"min": 5, "max": 1}},
+        "random_number:zero_length": {"random_number": {"min": 3, "max": 3}},
+        "random_number:step_zero": {"random_number": {"min": 1, "max": 10, "step": 0}},
+        "random_number:step_beyond": {"random_number": {"min": 1, "max": 2, "step": 5}},
+        "random_number:step_negative": {"random_number": {"min": 1, "max": 10, "step": -1}},
+        "date_between:backwards": {"date_between": {"start_date": _dt.date(2022, 1, 1), "end_date": _dt.date(2020, 1, 1)}},
+        "date_between:same_day": {"date_between": {"start_date": _dt.date(2022, 1, 1), "end_date": _dt.date(2022, 1, 1)}},
+        "datetime_between:backwards": {"datetime_between": {"start_date": "2022-01-01 10:00:00", "end_date": "2020-01-01 10:00:00"}},
+        "datetime_between:same": {"datetime_between": {"start_date": "2022-01-01 10:00:00", "end_date": "2022-01-01 10:00:00"}},
+        "if:empty": {"if": []},
+        "if:nothing_true": {"if": [{"choice": {"when": "${{ 1 > 2 }}", "pick": "a"}}]},
+        "fake:text_zero": {"fake.text": {"max_nb_chars": 0}},
+        "empty_string": "",
+        "formula_empty": "${{ [] | first }}",
+        "formula_range_empty": "${{ range(0) | list | random }}",
+    }
+    for k, v in plain.items():
+        out[k] = ([], [], v, {}, False)
+    P = "snowfakery.standard_plugins."
+    out["counter:step_zero"] = ([P + "Counters"], [], {"Counters.NumberCounter": {"start": 1, "step": 0}}, {}, False)
+    out["date_counter:step_zero"] = ([P + "Counters"], [], {"Counters.DateCounter": {"start_date": "2020-01-01", "step": "+0d"}}, {}, False)
+    for lab, args in {"count_zero": {"start_date": "2020-01-01", "freq": "daily", "count": 0},
+                      "interval_zero": {"start_date": "2020-01-01", "freq": "daily", "interval": 0},
+                      "until_before_start": {"start_date": "2020-01-01", "freq": "daily", "until": "2019-01-01"},
+                      "count_one": {"start_date": "2020-01-01", "freq": "weekly", "count": 1}}.items():
+        # (a rule that no day satisfies - 31 February - makes dateutil search up to the year 9999: seconds of CPU, its own
+        # affair; not among the sources)
+        out["schedule:" + lab] = ([P + "Schedule"], [], {"Schedule.Event": args}, {}, False)
+    out["unique_id:empty_alphabet"] = ([P + "UniqueId"], [], {"UniqueId.AlphaCodeGenerator": {"alphabet": ""}}, {}, False)
+    out["unique_id:one_letter_alphabet"] = ([P + "UniqueId"], [], {"UniqueId.AlphaCodeGenerator": {"alphabet": "a"}}, {}, False)
+    out["unique_id:min_chars_zero"] = ([P + "UniqueId"], [], {"UniqueId.AlphaCodeGenerator": {"min_chars": 0}}, {}, False)
+    out["unique_id:empty_template"] = ([P + "UniqueId"], [], {"UniqueId.NumericIdGenerator": {"template": ""}}, {}, False)
+    out["file:zero_bytes"] = ([P + "file.File"], [], {"File.file_data": {"file": "nothing.txt"}}, {"nothing.txt": ""}, False)
+    out["base64:empty"] = ([P + "base64.Base64"], [], {"Base64.encode": {"data": ""}}, {}, False)
+    out["math:min_of_nothing"] = ([P + "Math"], [], "${{ Math.min() }}", {}, False)
+    # tables without rows to refer to / fewer rows than wanted
+    out["random_reference:count_zero"] = ([], [{"object": "Zero", "count": 0}], {"random_reference": "Zero"}, {}, False)
+    out["random_reference:count_zero_unique"] = ([], [{"object": "Zero", "count": 0}], {"random_reference": {"to": "Zero", "unique": True}}, {}, False)
+    out["random_reference:unique_used_up"] = ([], [{"object": "One", "count": 1}], {"random_reference": {"to": "One", "unique": True}}, {}, False)
+    out["random_reference:nickname_count_zero"] = ([], [{"object": "Zero", "nickname": "zz", "count": 0}], {"random_reference": "zz"}, {}, False)
+    out["random_reference:for_each_empty"] = ([boom], [{"object": "Zero", "for_each": {"var": "q", "value": {"Boom.items": {"n": 0}}}}],
+                                              {"random_reference": "Zero"}, {}, False)
+    out["reference:count_zero"] = ([], [{"object": "Zero", "count": 0}], {"reference": "Zero"}, {}, False)
+    out["reference:nickname_count_zero"] = ([], [{"object": "Zero", "nickname": "zz", "count": 0}], {"reference": "zz"}, {}, False)
+    out["nested:count_zero"] = ([], [], {"object": "Inner", "count": 0}, {}, False)
+    out["nested_list:count_zero"] = ([], [], [{"object": "Inner", "count": 0}], {}, False)
+    return out
+
+
+EMPTY_USES = ["field", "hidden_then_formula", "var_then_formula", "var_next", "for_each", "friend_field", "nested_field", "argument",
+              "count", "friend_for_each", "second_use"]
+
+
+def _empty_recipe(src, use, count):
+    plugins, before, value, files, record = src
+    attr = ".City" if record else ""
+    stmts = [{"plugin": p} for p in plugins] + copy.deepcopy(before)
+    value = copy.deepcopy(value)
+    main = {"object": "Main", "count": count}
+    if use == "field":
+        main["fields"] = {"x": value}
+    elif use == "hidden_then_formula":
+        main["fields"] = {"__r": value, "y": "${{ __r%s }}" % attr}
+    elif use == "var_then_formula":
+        stmts.append({"var": "v", "value": value})
+        main["fields"] = {"y": "${{ v%s }}" % attr}
+    elif use == "var_next":
+        stmts.append({"var": "v", "value": value})
+        main["fields"] = {"y": "${{ v.next%s }}" % attr}
+    elif use == "for_each":
+        del main["count"]
+        main["for_each"] = {"var": "r", "value": value}
+        main["fields"] = {"y": "${{ r%s }}" % attr}
+    elif use == "friend_field":
+        main["fields"] = {"a": 1}
+        main["friends"] = [{"object": "Friend", "count": 2, "fields": {"x": value}}]
+    elif use == "friend_for_each":
+        main["fields"] = {"a": 1}
+        main["friends"] = [{"object": "Friend", "for_each": {"var": "r", "value": value}, "fields": {"y": "${{ r%s }}" % attr}}]
+    elif use == "nested_field":
+        main["fields"] = {"c": {"object": "Child", "fields": {"x": value}}}
+    elif use == "argument":
+        main["fields"] = {"x": {"random_choice": [value, value]}}
+    elif use == "count":
+        main["count"] = value
+        main["fields"] = {"a": 1}
+    elif use == "second_use":
+        main["fields"] = {"x": value, "z": copy.deepcopy(value)}
+        stmts.append(main)
+        main = {"object": "Again", "count": count, "fields": {"x": copy.deepcopy(value)}}
+    else:
+        raise ValueError(use)
+    # a template before it that writes rows: what is reported late is seen as rows written before the error
+    return [{"object": "Before", "fields": {"a": 1}}] + stmts + [main], files
+
+
+def empty_cases(rng, tier):
+    srcs = _empty_sources()
+    combos = [(s, u) for s in srcs for u in EMPTY_USES]
+    if tier == "quick":
+        # every source in one way of using it, every way of using with some source, and a sample of the rest
+        pick = [(s, rng.choice(EMPTY_USES)) for s in srcs] + [(rng.choice(sorted(srcs)), u) for u in EMPTY_USES]
+        pick += rng.sample(combos, 120)
+    else:
+        pick = combos
+    out = []
+    for s, u in pick:
+        doc, files = _empty_recipe(srcs[s], u, rng.choice([1, 2, 3, 3]))
+        fs = dict(files)
+        fs["main.yml"] = yaml.safe_dump(doc, sort_keys=False, allow_unicode=True, width=1000)
+        out.append({"kind": "empty", "files": fs, "main": "main.yml", "source": s, "use": u, "label": f"empty:{s}:{u}"})
+    return out
+
+
 # =============================================================================== generation
 def generate(rng, tier):
     cases = []
@@ -1431,6 +1774,11 @@ def generate(rng, tier):
                 take = rng.sample(ds, min(len(ds), max(room, 300)))
             used += len(take)
             cases.extend({"kind": "edit", "seed": n, "edit": d} for d in take)
+    # round 4: sources that are empty / used up; the single edits in the company of valid statements of every kind
+    # (a generator of their own, derived from the state of the run's: the cases above stay what they were)
+    rng4 = random.Random("r4:" + ",".join(str(x) for x in rng.getstate()[1][:8]))
+    cases.extend(empty_cases(rng4, tier))
+    cases.extend(ctx_cases(rng4, tier))
     return cases
 
 
@@ -1447,6 +1795,9 @@ def materialise(case):
             return None, None
         t = s["tree"] if case.get("edit") is None else apply_edit(s["tree"], case["edit"])
         return dump(t), s["base"]
+    if k == "ctx":
+        t, _ = ctx_tree(case)
+        return (dump(t), None) if t is not None else (None, None)
     if k == "fault":
         return yaml.safe_dump(_fault_recipe(case["site"], case["depth"], case["exc"]), sort_keys=False), None
     if k == "hostile":
@@ -1456,7 +1807,7 @@ def materialise(case):
         return case["text"], None
     if k == "big":
         return big_text(case["shape"], case["n"]), None
-    if k == "files":
+    if k in ("files", "empty"):
         return case["files"][case["main"]], None       # run_impl writes the files and supplies the base
     raise ValueError(k)
 
@@ -1612,7 +1963,7 @@ def run_impl(case):
         raise C._CaseTimeout()
     try:
         old = signal.signal(signal.SIGPROF, on_cpu)
-        signal.setitimer(signal.ITIMER_PROF, CPU_LIMIT)
+        signal.setitimer(signal.ITIMER_PROF, CPU_LIMIT_BY_KIND.get(case["kind"], CPU_LIMIT))
     except (ValueError, AttributeError, OSError):
         return _run_impl(case)                    # (not the main thread / no such timer: the wall-clock alarm remains)
     try:
@@ -1622,6 +1973,9 @@ def run_impl(case):
         signal.signal(signal.SIGPROF, old)
 
 
+_ALONE = {}          # (seed, edit) -> verdict of the edited seed on its own (per worker process)
+
+
 def _run_impl(case):
     if case["kind"] in ("fmt", "fix"):
         return _run_fmt(case)
@@ -1629,23 +1983,42 @@ def _run_impl(case):
     if text is None:
         return {"skip": "seed unavailable"}
     tmpdir = None
-    if case["kind"] == "files":
+    if case["kind"] in ("files", "empty"):
         import tempfile
         tmpdir = tempfile.mkdtemp(prefix="sfv.c20.", dir="/var/tmp")
         for name, content in case["files"].items():
             fp = Path(tmpdir) / name
             fp.parent.mkdir(parents=True, exist_ok=True)
-            fp.write_text(content)
+            if isinstance(content, dict):              # {"sqlite": [statements]}: a database file
+                import sqlite3
+                db = sqlite3.connect(str(fp))
+                for stmt in content["sqlite"]:
+                    db.execute(stmt)
+                db.commit()
+                db.close()
+            else:
+                fp.write_text(content, encoding="utf-8")
         base = str(Path(tmpdir) / case["main"])
     try:
-        return _run_text(case, text, base)
+        obs = _run_text(case, text, base)
+        if case["kind"] == "ctx":
+            # the edited seed on its own, in the same process: what is a fault of the document alone is one in company
+            key = json.dumps([case["seed"], case.get("edit")])
+            if key not in _ALONE:
+                _, alone = ctx_tree(case)
+                a = _run_text({"kind": "doc"}, dump(alone), None, want_env=False)
+                if len(_ALONE) > 5000:
+                    _ALONE.clear()
+                _ALONE[key] = {k: a.get(k) for k in ("outcome", "phase", "rows", "where", "dge")}
+            obs["alone"] = dict(_ALONE[key])
+        return obs
     finally:
         if tmpdir:
             import shutil
             shutil.rmtree(tmpdir, ignore_errors=True)
 
 
-def _run_text(case, text, base):
+def _run_text(case, text, base, want_env=True):
     from snowfakery.data_generator import generate as sf_generate
     from snowfakery.output_streams import OutputStream
     from snowfakery.data_gen_exceptions import DataGenError
@@ -1737,7 +2110,7 @@ def _run_text(case, text, base):
     obs["rows"] = state["rows"]
     obs["phase"] = None if orig is None else ("run" if state["started"] else "static")
     # what the model needs to know about the world
-    if case["kind"] not in ("fault", "hostile", "big"):
+    if want_env and case["kind"] not in ("fault", "hostile", "big"):
         try:
             py = yaml.safe_load(text)
             obs["env"] = _environment(py, base)
@@ -2087,7 +2460,7 @@ def coq_case(case, obs):
         return f"CFix {cs(case['template'])} {C.clist(cs(a) for a in case['args'])} {e} {_cexn(r)}"
     if "outcome" not in obs:
         return None
-    if case["kind"] == "big":
+    if case["kind"] == "big" or case.get("model") is False:
         return None                       # the recursion limit / the size of numbers is not what the model is about
     if case["kind"] == "hostile":
         steps, leaf, e = fault_path_v(case)
@@ -2187,6 +2560,18 @@ def oracle(case, obs):
         return "message: rejected with a DataGenError that carries no message"
     if obs.get("phase") == "static" and obs.get("rows", 0) > 0:
         return f"rows: {obs['rows']} rows were written although the error was raised before execution started"
+    if case["kind"] == "ctx":
+        alone = obs.get("alone") or {}
+        if alone.get("outcome") == "DGE" and alone.get("phase") == "static" and case["prefix"] != "self":
+            # a fault the recipe shows on its own: it must be reported, and before any row, whatever surrounds it
+            where = {"before": "behind", "after": "in front of", "around": "between"}.get(case.get("pos"), "next to")
+            if out == "accept":
+                return (f"late: a document that is rejected before execution on its own ({alone.get('dge')}) is accepted "
+                        f"when it stands {where} the valid statements `{case['prefix']}` ({obs.get('rows')} rows written)")
+            if obs.get("phase") == "run" and obs.get("rows", 0) > 0:
+                return (f"late: a fault that is reported before execution when the document stands alone ({alone.get('dge')}) "
+                        f"is reported only during execution, after {obs.get('rows')} rows, when it stands {where} the valid "
+                        f"statements `{case['prefix']}`")
     if case["kind"] in ("dag", "big") and "cpu" in obs:
         text, _ = materialise(case)
         if obs["cpu"] > cpu_budget(case, len(text)):
@@ -2204,7 +2589,7 @@ def nontrivial(case, obs):
         return isinstance(obs, dict) and not obs.get("skip") and ("{" in case["template"] or "}" in case["template"])
     if not isinstance(obs, dict) or "outcome" not in obs:
         return False
-    return case["kind"] in ("fault", "hostile", "dag", "big") or obs["outcome"] != "accept"
+    return case["kind"] in ("fault", "hostile", "dag", "big", "empty") or obs["outcome"] != "accept"
 
 
 def stats(cases, obss):
@@ -2220,8 +2605,32 @@ def stats(cases, obss):
           "fix_exception": Counter(), "dag_places": Counter(), "dag_shapes": Counter(), "dag_depths": Counter(),
           "dag_outcomes": Counter(), "big_shapes": Counter(), "big_outcomes": Counter()}
     max_calls, max_cpu = 0, 0.0
+    r4 = {"empty_sources": Counter(), "empty_uses": Counter(), "empty_outcomes": Counter(), "context_statements": Counter(),
+          "context_positions": Counter(), "context_seeds": Counter(), "context_alone_vs_in_company": Counter()}
+
+    def _verdict(o):
+        if not isinstance(o, dict):
+            return "n/a"
+        if o.get("hang"):
+            return "hang"
+        out = o.get("outcome")
+        if out == "accept":
+            return "accept"
+        if out == "DGE":
+            return "reject/" + str(o.get("phase")) + ("/rows>0" if o.get("rows") else "")
+        return "crash " + str(out)
     for c, o in zip(cases, obss):
         k = c["kind"]
+        if k == "empty":
+            r4["empty_sources"][":".join(c["source"].split(":")[:2])] += 1
+            r4["empty_uses"][c["use"]] += 1
+            r4["empty_outcomes"][c["source"].split(":")[0] + " " + _verdict(o)] += 1
+        elif k == "ctx":
+            r4["context_statements"][c["prefix"]] += 1
+            r4["context_positions"][c.get("pos")] += 1
+            r4["context_seeds"][c["seed"] + (" (unchanged)" if c.get("edit") is None else "")] += 1
+            if isinstance(o, dict) and "alone" in o:
+                r4["context_alone_vs_in_company"][_verdict(o["alone"]) + " -> " + _verdict(o)] += 1
         if not isinstance(o, dict):
             outc["n/a"] += 1
             continue
@@ -2274,7 +2683,7 @@ def stats(cases, obss):
     round3 = {k: dict(v) for k, v in r3.items()}
     round3["dag_depths"] = {str(k): v for k, v in sorted(r3["dag_depths"].items())}
     round3.update(max_alias_check_invocations=max_calls, max_cpu_seconds_dag_big=max_cpu, hostile_alphabet=len(HOSTILE))
-    return {"round3": round3, "seeds_enumerated_exhaustively": len(exhaustive), "kinds": dict(kinds), "outcome/phase": dict(outc), "crash_sites": dict(crash), "reject_classes": dict(dge),
+    return {"round4": {k: dict(v) for k, v in r4.items()}, "round3": round3, "seeds_enumerated_exhaustively": len(exhaustive), "kinds": dict(kinds), "outcome/phase": dict(outc), "crash_sites": dict(crash), "reject_classes": dict(dge),
             "reject_location": dict(lines), "runtime_reject_rows_before": dict(rows_before_dge),
             "edit_ops": dict(ops), "seeds": len(sd), "seed_nodes": sum(s["nodes"] for s in sd.values())}
 
@@ -2286,6 +2695,17 @@ def shrink(case):
         if s is not None:
             t = s["tree"] if case.get("edit") is None else apply_edit(s["tree"], case["edit"])
             yield {"kind": "doc", "tree": t, "base": s["base"], "label": f"{case['seed']} {case.get('edit')}"}
+        return
+    if case["kind"] == "ctx":
+        # fewer surrounding statements first (the comparison with the document alone stays), then the plain document
+        if case["prefix"] in ("all", "all_reversed"):
+            for name in sorted(_CTX):
+                yield dict(case, prefix=name)
+        if case.get("pos") != "before":
+            yield dict(case, pos="before")
+        t, _ = ctx_tree(case)
+        if t is not None:
+            yield {"kind": "doc", "tree": t, "base": None, "label": f"ctx {case['prefix']} {case['seed']} {case.get('edit')}"}
         return
     if case["kind"] != "doc":
         return
